@@ -7,7 +7,7 @@
 (*                                                                         *)
 (* mode "chunk" (C02): Tok = decode of each token alone, Run = decode of   *)
 (*   the whole string under one partition (cuts = <<>> is the single read).*)
-(*   The single-read decode of every 7-bit string is also predicted by the *)
+(*   The single-read decode of every string is also predicted by the       *)
 (*   tokenizer model (Tokenizer.tla) from the terminal's key table.        *)
 (* mode "keys"  (C03): Entry = one key-table entry (sorted), Decode /      *)
 (*   AltDecode / EscDecode / PairDecode = decodes of capability sequences. *)
@@ -37,13 +37,13 @@ Robust(e, tag) ==
 
 \* the language of the recorded terminal, for the tokenizer model
 LangOf(c) == [keys |-> {[seq |-> c.keys[i][1], key |-> c.keys[i][2], mod |-> c.keys[i][3]] : i \in 1..Len(c.keys)},
-              mouse |-> c.mouse, clip |-> c.clip, ps |-> c.ps, pe |-> c.pe, guard |-> TRUE, strict |-> TRUE]
+              mouse |-> c.mouse, clip |-> c.clip, ps |-> c.ps, pe |-> c.pe, guard |-> TRUE, strict |-> TRUE, utf8 |-> TRUE]
 \* mouse and clipboard events are compared by kind only (their content is C12's and the clipboard's matter);
 \* an OSC 52 reply with undecodable base64 is consumed without an event
 NormEvs(evs) == LET k == SelectSeq(evs, LAMBDA x : x[1] # "clip")
                 IN [i \in 1..Len(k) |-> IF k[i][1] = "mouse" THEN <<"mouse">> ELSE k[i]]
 Predicted(e) ==
-    IF "keys" \notin DOMAIN cfg \/ \E i \in 1..Len(e.bytes) : e.bytes[i] > 127 THEN {}
+    IF "keys" \notin DOMAIN cfg THEN {}
     ELSE LET d == Decode(LangOf(cfg), e.bytes) IN
          IF d.amb \/ d.hi THEN {}
          ELSE (IF NormEvs(Events(d)) = NormEvs(e.evs) THEN {}
@@ -151,8 +151,30 @@ TextExpected(c, e) ==
     \o (IF e.paste THEN <<<<"paste", 0>>>> ELSE <<>>)
     \o (IF e.focus THEN <<<<"focus", 1>>>> ELSE <<>>)
 
+\* the character set of a POSIX locale setting: LC_ALL, else LC_CTYPE, else LANG; "C" and "POSIX" are US-ASCII; otherwise
+\* the codeset between '.' and an optional '@modifier', UTF-8 when the locale names none (strings as byte sequences)
+RECURSIVE Find(_, _, _)
+Find(sq, b, i) == IF i > Len(sq) THEN 0 ELSE IF sq[i] = b THEN i ELSE Find(sq, b, i + 1)
+LocaleCharset(lcall, lctype, lang) ==
+    LET loc == IF lcall # <<>> THEN lcall ELSE IF lctype # <<>> THEN lctype ELSE lang
+        at == Find(loc, 64, 1)
+        base == IF at = 0 THEN loc ELSE SubSeq(loc, 1, at - 1)
+        dot == Find(base, 46, 1)
+    IN IF loc \in {<<67>>, <<80, 79, 83, 73, 88>>} THEN <<85, 83, 45, 65, 83, 67, 73, 73>>     \* US-ASCII
+       ELSE IF dot = 0 THEN <<85, 84, 70, 45, 56>>                                              \* UTF-8
+       ELSE SubSeq(base, dot + 1, Len(base))
+
+LocaleStep(e) ==
+    LET want == LocaleCharset(e.lc_all, e.lc_ctype, e.lang) IN
+    <<st, (IF e.initerr # "" THEN {}           \* a codeset name no encoding is registered under: Init refuses, nothing to compare
+           ELSE IF e.charset = want THEN {}
+           ELSE {Dev("C11.locale", "charset", <<e.lc_all, e.lc_ctype, e.lang, e.charset, want>>)})
+          \cup (IF e.initerr = "" /\ e.registered /\ e.got # e.src
+                THEN {Dev("C11.locale", "text", <<e.lc_all, e.lc_ctype, e.lang, e.src, e.got>>)} ELSE {})>>
+
 TextStep(e) ==
-    IF e.ev # "Text" THEN <<st, {}>>
+    IF e.ev = "Locale" THEN LocaleStep(e)
+    ELSE IF e.ev # "Text" THEN <<st, {}>>
     ELSE <<st, Robust(e, "C11")
            \cup (IF e.evs = TextExpected(cfg, e) /\ e.left = 0 THEN {}
                  ELSE {Dev("C11.text", IF e.cuts = <<>> THEN "whole" ELSE "split", <<cfg.cs, e.src, e.cuts>>)})>>
